@@ -46,6 +46,8 @@ theorem C20_position_roundtrip (tb frac deno m b t : Nat) (hm : 1 ≤ m) (hb : 1
   have h2 : (((m - 1) * frac + (b - 1)) * B + t) % B = t := by
     rw [Nat.mul_comm, Nat.mul_add_mod, Nat.mod_eq_of_lt ht]
   have hf : 0 < frac := by omega
+  have hf0 : ¬ (frac = 0) := by omega
+  simp only [hf0, if_false]
   have h3 : ((m - 1) * frac + (b - 1)) / frac = m - 1 := by
     rw [Nat.mul_comm, Nat.mul_add_div hf, Nat.div_eq_of_lt (by omega)]; simp
   have h4 : ((m - 1) * frac + (b - 1)) % frac = b - 1 := by
